@@ -14,6 +14,7 @@ import (
 	"time"
 
 	"github.com/conduitio/conduit-commons/opencdc"
+	"github.com/conduitio/conduit/pkg/pipeline"
 	"github.com/conduitio/conduit/pkg/verifkit"
 	"github.com/conduitio/conduit/pkg/verifkit/fakes"
 	"github.com/conduitio/conduit/pkg/verifkit/stack"
@@ -218,6 +219,18 @@ func flowScenario(p flowParams) verifkit.Scenario {
 						err = st.LC.WaitPipeline(stack.PipelineID)
 						x.W.Log("ctl", "wait.ret", -1, errStr(err))
 					}
+				}})
+			case "stopall":
+				x.AddControl(&verifkit.Control{Name: "stopall", AfterPrevReturned: true, Do: func() {
+					if st.V1 != nil {
+						st.V1.StopAll(x.Ctx, pipeline.ErrGracefulShutdown)
+						x.W.Log("ctl", "stopall.ret", -1, "nil")
+					} else {
+						err := st.V2.StopAll(x.Ctx, false)
+						x.W.Log("ctl", "stopall.ret", -1, errStr(err))
+					}
+					err := st.LC.Wait(time.Minute)
+					x.W.Log("ctl", "waitall.ret", -1, errStr(err))
 				}})
 			case "force":
 				x.AddControl(&verifkit.Control{Name: "force", AfterPrevReturned: true, Do: func() {
